@@ -564,7 +564,37 @@ def signatures(repo):
                     ptr = t.endswith("*")
                     ps.append((c.get("name"), t.rstrip("* ").strip(), ptr))
             sigs[name] = (m.group(1).strip(), ps)
+            # error returns `BASE + __LINE__`: the translation abstracts __LINE__ to 1, so a return
+            # value in (BASE, BASE + number of lines] of a function that uses __LINE__ is compared
+            # by class (positive) only
+            rng = node.get("range", {})
+            b = (rng.get("begin", {}).get("offset"), rng.get("end", {}).get("offset"))
+            body = u.src[b[0]:b[1]] if None not in b else b""
+            bases = [int(x) for x in re.findall(rb"#define\s+\w*ERROR\w*\s+(\d+)", _unit_text(u))]
+            LINE_RET[name] = (bases, u.src.count(b"\n") + 2) if b"__LINE__" in body else None
     return sigs
+
+
+LINE_RET = {}
+
+
+def _unit_text(u):
+    """the C file and the headers beside it (where the *_ERROR bases are defined)"""
+    txt = u.src
+    for h in sorted(u.path.parent.glob("*.h")):
+        try:
+            txt += b"\n" + h.read_bytes()
+        except OSError:
+            pass
+    return txt
+
+
+def is_line_code(name, ret):
+    spec = LINE_RET.get(name)
+    if not spec or not isinstance(ret, int) or ret <= 0:
+        return False
+    bases, nlines = spec
+    return any(b < ret <= b + nlines for b in bases)
 
 
 class Guarded:
@@ -644,7 +674,7 @@ def case_term(name, sig, args, ret, outs):
             o.append("VArrF [" + "; ".join(cf(x) for x in v) + "]")
         else:
             o.append("VArrI [" + "; ".join(cz(x) for x in v) + "]")
-    r = f"ExpF {cf(ret)}" if rt == "double" else f"ExpI {cz(ret)}"
+    r = f"ExpF {cf(ret)}" if rt == "double" else ("ExpPos" if is_line_code(name, ret) else f"ExpI {cz(ret)}")
     return f'mkTcase "{name}" [{"; ".join(a)}] ({r}) [{"; ".join(o)}]'
 
 
